@@ -64,7 +64,9 @@ class C06(fw.Prop):
             "instantiation splices a row for a row variable (different arity than the body); per operation one "
             "signature case, one port case for every offset in -1..n+1 in both directions (op.port_kind, "
             "op.port_type, Hugr.port_kind, Hugr.port_type), nth_inputs/nth_outputs for n in -1..k+1, and "
-            "constructor cases for Call/LoadFunc.  non-trivial = the implementation returned at least one "
+            "constructor cases for Call/LoadFunc; plus a deterministic small-scope sweep (every class x all "
+            "combinations of the rows [], [usize], [qubit, usize] in every field, optional fields unset; capped "
+            "at 6 / 60 combinations per class).  non-trivial = the implementation returned at least one "
             "value (not only exceptions) in the case")
     trusted = ["constants are represented by the type their value reports (val.type_()); typing of values is C14",
                "exception classes are observed but compared only as 'an exception was raised'",
@@ -226,7 +228,36 @@ class C06(fw.Prop):
                     ["Block", [], ["Sum", []], [], []], ["MakeTuple", []], ["UnpackTuple", []], ["Input", []],
                     ["TailLoop", [], [], [], []], ["CallIndirect", ["F", [], [], []]], ["Some", []]]):
             cases.extend(self.cases_for(op))
+        cases.extend(self.small_scope(tier))
         return cases
+
+    def small_scope(self, tier):
+        """Deterministic sweep: every class over all combinations of a few small rows (empty, one copyable,
+        linear + copyable) in every field, optional fields also unset."""
+        import itertools
+        U, Q = ["USize"], ["Qubit"]
+        R = [[], [U], [Q, U]]
+        F0, F1 = ["F", [], [], []], ["F", [U], [Q, U], []]
+        choices = {
+            "row": R, "orow": R + [None], "ty": [U, Q], "oty": [U, None],
+            "sum": [["UnitSum", 2], ["Sum", [[U], [Q, U]]], ["Sum", []]],
+            "osum": [["UnitSum", 2], ["Sum", [[U], [Q, U]]], None],
+            "either": [["Either", [U], [Q, U]]], "F": [F0, F1], "oF": [F0, F1, None],
+            "P": [["P", [], F1]], "oP": [None, ["P", [], F1], ["P", [["PType", "A"]], F1]],
+            "name": ["x"], "names": [[]], "args": [[]], "oargs": [None], "params": [[]], "bound": ["C"],
+            "int": [0, 1, 2],
+        }
+        cap = 6 if tier == "quick" else 60
+        out = []
+        for name, fields in SCHEMA.items():
+            if name == "ConstVal":
+                combos = [[v] for v in CONSTVALS]
+            else:
+                combos = list(itertools.product(*[choices[k] for k in fields]))
+            step = max(1, len(combos) // cap)
+            for c in combos[::step][:cap + 1]:
+                out.extend(self.cases_for([name] + [copy.deepcopy(x) for x in c]))
+        return out
 
     def check_terms(self, op):
         """The two Gallina printers of tygen must agree on every type in the op (harness self-check)."""
